@@ -22,9 +22,11 @@ import (
 //	  ops:  0 tag Do | 1 tag done() of the holder returned by Do tag | 2 k  an event of the k-th started instance
 //	  outs: 0 for Do/done; for instance events the phase: 1 function entered, 2 saw stop closed, 3 about to return
 const (
-	wkGap      = 120 * time.Microsecond
-	wkDeadline = 3 * time.Second
-	wkMaxInst  = 96
+	wkGap       = 120 * time.Microsecond
+	wkDeadline  = 3 * time.Second
+	wkMaxInst   = 96
+	wkPeekLimit = 150 * time.Millisecond
+	wkMaxBad    = 5 // after this many condemned cases the scenario stops early (the verdict is already a violation)
 )
 
 type wkRec struct {
@@ -40,16 +42,20 @@ type wkCase struct {
 	saw      atomic.Int32
 	returned atomic.Int32
 	overlap  atomic.Int32
-	gates    []chan struct{}  // K1: the function returns only when the harness closes its gate
-	delays   []time.Duration  // K2: per instance delay between seeing stop and returning
+	gates    []chan struct{} // K1: the function returns only when the harness closes its gate
+	delays   []time.Duration // K2: per instance delay between seeing stop and returning
 	record   bool
 	mu       sync.Mutex
 	recs     []wkRec
 	monitors atomic.Int32
 }
 
+var wkBad atomic.Int32
+
 func (c *wkCase) monitor(format string, args ...interface{}) {
-	c.monitors.Add(1)
+	if c.monitors.Add(1) == 1 {
+		wkBad.Add(1)
+	}
 	c.h.line("MONITOR C17 case=%s %s", c.id, fmt.Sprintf(format, args...))
 }
 
@@ -112,15 +118,21 @@ func (c *wkCase) fn(stop <-chan struct{}) {
 
 // peek reads the Worker's fields under its mutex without ever blocking for long: ok=false means mu stayed locked.
 func (c *wkCase) peek() (stop chan struct{}, done chan struct{}, wg *sync.WaitGroup, ok bool) {
-	for i := 0; i < 4000; i++ {
+	limit := wkPeekLimit
+	if c.monitors.Load() > 0 {
+		limit = time.Millisecond // the case is already condemned: do not spend more time on it
+	}
+	for t0 := time.Now(); ; {
 		if c.w.mu.TryLock() {
 			stop, done, wg = c.w.stop, c.w.done, c.w.wg
 			c.w.mu.Unlock()
 			return stop, done, wg, true
 		}
+		if time.Since(t0) > limit {
+			return nil, nil, nil, false
+		}
 		time.Sleep(50 * time.Microsecond)
 	}
-	return nil, nil, nil, false
 }
 
 // checkHeld is evaluated by a caller that currently holds the worker (its Do returned, its done not yet called).
@@ -128,7 +140,7 @@ func (c *wkCase) checkHeld(who string) {
 	stop, _, _, ok := c.peek()
 	switch {
 	case !ok:
-		c.monitor("%s: the worker's mutex stayed locked for 200ms while a holder is outstanding", who)
+		c.monitor("%s: the worker's mutex stayed locked for 150ms while a holder is outstanding", who)
 	case stop == nil:
 		c.monitor("%s: no instance exists (stop is nil) while a holder is outstanding", who)
 	default:
@@ -167,12 +179,12 @@ func wkMustPanic(c *wkCase, what string, f func()) {
 
 func init() {
 	register("C17K1", func(h *hctx) {
-		for i := 0; i < h.n; i++ {
+		for i := 0; i < h.n && wkBad.Load() < wkMaxBad; i++ {
 			wkK1Case(h, i)
 		}
 	})
 	register("C17K2", func(h *hctx) {
-		for i := 0; i < h.n; i++ {
+		for i := 0; i < h.n && wkBad.Load() < wkMaxBad; i++ {
 			wkK2Case(h, i)
 		}
 	})
